@@ -12,13 +12,13 @@ LEVEL_TEXT = ("HlsSession.tla models sessions (secret -> path, IP, created by an
               "CDN session and the CDN secret; 'authorized' is C01's statement formula over the configured users. TLC checks "
               "served => (valid secret of a session of that path from the same IP) or CDN secret for every request in every "
               "reachable state, with and without a CDN secret; edge-covering walks over the state-changing actions (open with "
-              "every credential / IP / path, CDN open, API kick, idle expiry, CDN kick) are replayed on a real hls.Server with real "
+              "every credential / IP / path, open with every Bearer form (right / wrong secret, empty token, lower-case scheme), API kick, idle expiry, CDN kick) are replayed on a real hls.Server with real "
               "streams and a path manager driven by the real auth.Manager; after every step media playlist / segment / part "
-              "requests with every secret source (cookie, query, none, unknown, other session), IP and Authorization are sent and "
+              "requests with every secret source (cookie, query, none, unknown, other session), IP and Authorization form (none, Basic, 6 Bearer forms) are sent and "
               "TLC evaluates the statement on the observed trace")
-LEVEL_NOTE = ("bounded: 2 sessions per behaviour, 2 paths + 1 without stream, 6 client IPs incl. textual-prefix pairs, IPv4 and IPv6 (X-Forwarded-For through the "
+LEVEL_NOTE = ("bounded: 2 sessions per behaviour, 2 paths + 1 without stream, 6 client IPs incl. textual-prefix pairs, IPv4 and IPv6 (quick tier: sessions opened from 4 of them, requests from all 6) (X-Forwarded-For through the "
               "trusted proxy), 6 credentials; probes per step are sampled; idle expiry is forced by ageing the session's last-request time "
-              "in-package and waiting for the muxer's real cleanup; hlsAlwaysRemux only; both tiers replay a subset of the edge-covering walks (quick 140, thorough 1000)")
+              "in-package and waiting for the muxer's real cleanup; hlsAlwaysRemux only; both tiers replay a subset of the edge-covering walks (quick 100, thorough 1000)")
 TECHNIQUE = "TLA+ model (TLC): exhaustive bounded MC + edge-covering walks replayed on the real code + trace validation"
 
 PKG = "./internal/servers/hls/"
@@ -26,6 +26,7 @@ CFG = """SPECIFICATION %s
 CONSTANTS
   MaxS = %d
   CDNConfigured = %s
+  WideIPs = %s
   ExpireAny = %s
 INVARIANTS ServedOnlyToSessions SessionsAdmitted TypeOK
 CHECK_DEADLOCK FALSE
@@ -33,6 +34,7 @@ CHECK_DEADLOCK FALSE
 PATHS = ["cam1", "other", "ghost"]
 IPS = ["10.0.0.1", "10.0.0.12", "10.0.0.123", "10.0.1.5", "2001:db8::1", "2001:db8::12"]
 KINDS = ["playlist", "segment", "part"]
+AUTHS = ["none", "basic", "cdn", "wrong", "bare", "barespace", "lower", "lowercdn"]
 
 
 def _probes(rnd, nrand, step_no):
@@ -43,13 +45,15 @@ def _probes(rnd, nrand, step_no):
         for p in ("cam1", "other"):
             for ip in IPS:
                 out.append({"kind": kind, "path": p, "sid": sid, "place": rnd.choice(["cookie", "query"]), "ip": ip, "auth": "none"})
+    # every Authorization form on every path (with no / a random session secret)
     for p in PATHS:
-        out.append({"kind": rnd.choice(KINDS), "path": p, "sid": rnd.choice([0, 1, 2, 3]), "place": "query",
-                    "ip": rnd.choice(IPS), "auth": "cdn"})
+        for a in AUTHS[1:]:
+            out.append({"kind": rnd.choice(KINDS), "path": p, "sid": rnd.choice([0, 0, 1, 2, 3]), "place": "query",
+                        "ip": rnd.choice(IPS), "auth": a})
     for _ in range(nrand):
         out.append({"kind": rnd.choice(KINDS), "path": rnd.choice(PATHS), "sid": rnd.choice([0, 1, 2, 3]),
                     "place": rnd.choice(["cookie", "query"]), "ip": rnd.choice(IPS),
-                    "auth": rnd.choice(["none", "none", "wrong", "cdn"])})
+                    "auth": rnd.choice(["none", "none"] + AUTHS)})
     rnd.shuffle(out)
     return out
 
@@ -58,8 +62,8 @@ def _step(lab):
     name, args = walk.parse_label(lab)
     if name == "Open":
         return {"op": "open", "path": args[0], "cred": args[1], "ip": args[2]}
-    if name == "OpenCDN":
-        return {"op": "opencdn", "path": args[0], "ip": args[1]}
+    if name == "OpenBearer":
+        return {"op": "openbearer", "path": args[0], "bearer": args[1], "ip": args[2]}
     if name in ("Kick", "Expire"):
         return {"op": name.lower(), "sid": args[0]}
     if name == "KickCDN":
@@ -78,16 +82,25 @@ def run(ctx):
         # MC: every request in every reachable state, with and without a configured CDN secret;
         # GEN: state graph of the state-changing actions. The four TLC runs go side by side.
         maxs = ctx.pick(2, 3)
+        wide = ctx.pick("FALSE", "TRUE")
         jobs = {}
         for cdn in ("TRUE", "FALSE"):
             cfg = "HlsSession_mc_%s.cfg" % cdn
             with open(d + "/" + cfg, "w") as fh:
                 # the invariant quantifies over every request in every state: the state-changing actions suffice
-                fh.write(CFG % ("SpecCtl", maxs, cdn, "TRUE"))
+                fh.write(CFG % ("SpecCtl", maxs, cdn, wide, "TRUE"))
             jobs["mc" + cdn] = (cfg, [])
+            if not ctx.thorough:
+                # quick tier: the model-checking run itself dumps the graph the walks are taken from (same bound;
+                # Expire(i) and Kick(i) have the same effect on the state, so leaving Expire(2) out of the
+                # graph does not change the reachable states the invariants are checked on)
+                with open(d + "/" + cfg, "w") as fh:
+                    fh.write(CFG % ("SpecCtl", maxs, cdn, wide, "FALSE"))
+                jobs["mc" + cdn] = (cfg, ["-dump", "dot,actionlabels", ctx.path("hls_%s.dot" % cdn)])
+                continue
             cfg = "HlsSession_gen_%s.cfg" % cdn
             with open(d + "/" + cfg, "w") as fh:
-                fh.write((CFG % ("SpecCtl", 2, cdn, ctx.pick("FALSE", "TRUE"))).replace(
+                fh.write((CFG % ("SpecCtl", 2, cdn, wide, ctx.pick("FALSE", "TRUE"))).replace(
                     "INVARIANTS ServedOnlyToSessions SessionsAdmitted TypeOK", "INVARIANT TypeOK"))
             jobs["gen" + cdn] = (cfg, ["-dump", "dot,actionlabels", ctx.path("hls_%s.dot" % cdn)])
         results, errors = {}, []
@@ -126,7 +139,7 @@ def run(ctx):
     expire_budget = ctx.pick(24, 600)
     for cdn in ("TRUE", "FALSE"):
         ws, covered, total = walk.edge_cover(graphs[cdn], maxlen=ctx.pick(14, 16), seed=int(ctx.seed),
-                                             limit=ctx.pick(70, 500))
+                                             limit=ctx.pick(50, 500))
         edges_total += total
         edges_covered += covered
         for w in ws:
@@ -143,7 +156,7 @@ def run(ctx):
             n_expire += ne
             n_steps += len(steps)
             for i, s in enumerate(steps):
-                s["probes"] = _probes(rnd, ctx.pick(6, 12), i)
+                s["probes"] = _probes(rnd, ctx.pick(3, 12), i)
             wid = len(walks) + 1
             walks.append({"walk": wid, "cdnConf": cdn == "TRUE", "variant": ["lowLatency", "mpegts", "fmp4"][wid % 3],
                           "cookie": wid % 2 == 0, "steps": steps})
@@ -163,7 +176,7 @@ def run(ctx):
     t0 = time.time()
 
     with open(d + "/TraceHlsSession.cfg", "w") as fh:
-        fh.write("SPECIFICATION TraceSpec\nCONSTANTS\n  MaxS = 2\n  CDNConfigured = TRUE\n  ExpireAny = TRUE\n"
+        fh.write("SPECIFICATION TraceSpec\nCONSTANTS\n  MaxS = 2\n  CDNConfigured = TRUE\n  WideIPs = TRUE\n  ExpireAny = TRUE\n"
                  "INVARIANT Verdicts\nPOSTCONDITION Accepted\nCHECK_DEADLOCK FALSE\n")
     nreq = nserved = nopen = nopen_ok = drift = 0
     chunk = 400
